@@ -98,7 +98,14 @@ def r2(ctx):
             continue
         v = dict(leaf[3])['0']
         if v[0] != 'call' or v[1] != 'chess_move::ChessMove::new':
-            ctx.inconclusive(R, 'ChessMove::from_str Ok value is not ChessMove::new(..): ' + sh(v, 200))
+            if not any(isinstance(x, tuple) and x and x[0] == 'param' for x in walk(v)) and \
+                    not any(isinstance(x, tuple) and x and x[0] == 'mem' for x in walk(v)):
+                # an Ok value that does not depend on the text at all (a sentinel such as ChessMove::default()): the parse then
+                # renders to something that need not be a prefix of the input
+                ctx.violation(R, MV_FROM + ':constant-ok', 'the reader returns Ok(%s), a move that is not read from the text: its rendering is not '
+                              'a prefix of what was parsed' % sh(v, 120), w)
+            else:
+                ctx.inconclusive(R, 'ChessMove::from_str Ok value is not ChessMove::new(..): ' + sh(v, 200))
             return
         promo = v[2][2]
         if promo[0] == 'agg' and promo[2] == 'Some':
@@ -129,6 +136,9 @@ def r3(ctx):
             continue
         n_ok += 1
         v = untry(dict(leaf[3])['0'])
+        if v[0] != 'call' or v[1] != 'chess_move::ChessMove::new' or len(v[2]) < 3:
+            bad.append('an Ok value is not built from the text: ' + sh(v, 120))
+            continue
         if match(sq(0, 2), v[2][0]) is None:
             bad.append('source is parsed from %s' % sh(v[2][0], 160))
         if match(sq(2, 4), v[2][1]) is None:
@@ -176,8 +186,16 @@ def r3(ctx):
     if not foreign and parts[0] == [[('arg', src), ('arg', dst)]] and parts[1] == [[('arg', src), ('arg', dst), ('arg', pr)]]:
         ok = True
     if foreign:
-        ctx.inconclusive(R, 'ChessMove Display depends on something other than the presence of a promotion: ' + sh(foreign[0], 120))
-        return
+        # a condition other than the presence of a promotion: with it explored both ways every outcome must still be the
+        # plain rendering; an outcome that is not means some move value is rendered differently (e.g. a sentinel text)
+        okall = parts[0] and parts[1] and all(p_ == [('arg', src), ('arg', dst)] for p_ in parts[0]) and \
+            all(p_ == [('arg', src), ('arg', dst), ('arg', pr)] for p_ in parts[1])
+        if okall:
+            ok = True
+        else:
+            ctx.violation(R, MV_FMT + ':special-case', 'ChessMove Display renders some moves differently from source+destination(+promotion), depending on %s' %
+                          sh(norm(foreign[0]), 120), w)
+            return
     if ok:
         ctx.ok(R, 'writer: source, destination, then the promotion piece iff Some (no separators)', w)
     else:
